@@ -16,6 +16,7 @@ import (
 	"strings"
 	"sync"
 	"testing"
+	"testing/iotest"
 	"time"
 
 	"github.com/AdguardTeam/golibs/logutil/slogutil"
@@ -102,7 +103,11 @@ type ReqSpec struct {
 	Code   int   `json:"code"`              // 0: no WriteHeader
 	Header bool  `json:"header"`            // set a response header
 	NoBody bool  `json:"no_body"`
-	Logs   int   `json:"logs"` // records written through the context logger
+	// BodyVia: how the handler writes its body: 0 io.WriteString, 1 io.Copy
+	// from a reader without WriteTo that returns data together with io.EOF,
+	// 2 io.Copy in one-byte reads, 3 fmt.Fprint.
+	BodyVia int `json:"body_via,omitempty"`
+	Logs    int `json:"logs"` // records written through the context logger
 	// Hijack: 1 the handler takes over the connection through
 	// w.(http.Hijacker), 2 through http.NewResponseController(w), and writes
 	// its answer to the connection itself (protocol upgrades, proxies).
@@ -447,7 +452,20 @@ func checkBatch(c BatchCase) error {
 			w.WriteHeader(spec.Code)
 		}
 		if !spec.NoBody {
-			_, _ = io.WriteString(w, "response-"+id)
+			switch spec.BodyVia {
+			case 1:
+				// Streamed with io.Copy from a source without WriteTo that
+				// returns its last bytes together with io.EOF (as HTTP client
+				// response bodies with a Content-Length do).
+				_, _ = io.Copy(w, struct{ io.Reader }{iotest.DataErrReader(strings.NewReader("response-" + id))})
+			case 2:
+				// The same in one-byte reads.
+				_, _ = io.Copy(w, struct{ io.Reader }{iotest.OneByteReader(strings.NewReader("response-" + id))})
+			case 3:
+				_, _ = fmt.Fprint(w, "response-"+id)
+			default:
+				_, _ = io.WriteString(w, "response-"+id)
+			}
 		}
 	}))
 
@@ -673,6 +691,7 @@ var batchProp = vp.Register(vp.Prop[BatchCase]{
 				Code:    rapid.SampledFrom([]int{0, 0, 200, 201, 204, 301, 400, 404, 418, 500, 503, 599}).Draw(t, "code"),
 				Header:  rapid.Bool().Draw(t, "header"),
 				NoBody:  rapid.IntRange(0, 4).Draw(t, "nobody") == 0,
+				BodyVia: rapid.SampledFrom([]int{0, 0, 1, 1, 2, 3}).Draw(t, "bodyvia"),
 				Logs:    rapid.IntRange(0, 2).Draw(t, "logs"),
 				Hijack:  rapid.SampledFrom([]int{0, 0, 0, 1, 2}).Draw(t, "hijack"),
 				NoRaddr: rapid.IntRange(0, 3).Draw(t, "noraddr") == 0,
